@@ -4,7 +4,10 @@ Correspondence: la.solve / la.inv / la.det / LU.invab / la.matmul / la.dot / @ /
 on arrays of Python ints, floats and uncertain reals (elementary, shared, intermediate,
 zero-valued-with-uncertainty; sizes 1..6; matrices that need row pivoting; singular and
 mis-shaped ones; arguments passed as plain arrays, transpose views, Fortran-ordered arrays, windows,
-strided and reversed views of larger base arrays -- the model receives the logical element matrix) and the outcome -- every result element (value, the three component vectors,
+strided and reversed views of larger base arrays -- the model receives the logical element matrix;
+40 % of the calls come after a random HISTORY of array operations on the operands or their bases:
+broadcasting binary operations (operand first / second, partner larger / equal / smaller / scalar /
+misaligned) that succeed or raise and are caught, unary operations, views -- the model ignores it) and the outcome -- every result element (value, the three component vectors,
 node kind), the contents of the argument arrays after the call, or the exception class -- is
 compared bit for bit with the Gallina model LU.v instantiated at LUInst.FElt (FNum), evaluated
 inside coqc.  The theorems (coq/LUFacts.v, coq/DualRing.v, coq/props/C15.v) are about the same
